@@ -267,7 +267,29 @@ func raceOne(m map[string]string) string {
 							return
 						}
 						x.Stats()
+						// getters of a torrent keep being called while it is removed
+						pollStop := make(chan struct{})
+						var pw sync.WaitGroup
+						for g := 0; g < 3; g++ {
+							pw.Add(1)
+							go func() {
+								defer pw.Done()
+								for {
+									select {
+									case <-pollStop:
+										return
+									default:
+									}
+									x.Stats()
+									x.Peers()
+									x.Trackers()
+								}
+							}()
+						}
+						_ = x.Start()
 						_ = s.RemoveTorrent(x.ID(), false)
+						close(pollStop)
+						pw.Wait()
 					})
 				case 18:
 					if t == lt && cr.Chance(10) {
